@@ -139,9 +139,27 @@ func cpParse(src []byte, lang language.Language) (coms []cpReal, chunks [][]int,
 	}
 }
 
-func cpSame(real []cpReal, exp []cpCom, variant int, unterminated bool) bool {
+// cpLines: the number of lines a source has (a last line without line feed counts)
+func cpLines(src string) int {
+	n := strings.Count(src, "\n")
+	if !strings.HasSuffix(src, "\n") {
+		n++
+	}
+	return n
+}
+
+func cpSame(real []cpReal, exp []cpCom, variant int, unterminated bool, nlines int) bool {
 	if len(real) != len(exp) && !(unterminated && len(real) == len(exp)+1) {
 		return false
+	}
+	// a construct that is still open at the end of the input may be dropped or reported up to the end (both readings are
+	// accepted) -- but what is reported lies inside the file: it starts behind the comments before it and ends on a line the
+	// source has
+	if len(real) == len(exp)+1 {
+		x := real[len(real)-1]
+		if x.SL < 1 || x.EL < x.SL || x.EL > nlines || (len(exp) > 0 && x.SL < exp[len(exp)-1].EL) {
+			return false
+		}
 	}
 	for i, e := range exp {
 		if real[i].SL != e.SL || real[i].EL != e.EL || real[i].Text != cpConcWith(e.T, cpTextLetters[variant]) {
@@ -202,12 +220,12 @@ func TestVerifCPReplay(t *testing.T) {
 				switch {
 				case fault != "":
 					class = "fault"
-				case cpSame(real, v.C, variant, v.U):
+				case cpSame(real, v.C, variant, v.U, cpLines(src)):
 					// comments are the reference's; now the grouping
 					if len(real) == len(v.C) && !cpSameChunks(chunks, v.Ch) {
 						class = "chunks"
 					}
-				case vuJS(v.BC) != vuJS(v.C) && cpSame(real, v.BC, variant, v.BU):
+				case vuJS(v.BC) != vuJS(v.C) && cpSame(real, v.BC, variant, v.BU, cpLines(src)):
 					class = "lexer-asbuilt" // only when the spec is run with deviation flags on
 				default:
 					class = "lexer"
